@@ -164,6 +164,10 @@ func init() {
 			e := fr.it.env
 			of := e.fileOf(a[0])
 			b := a[1].([]Value)
+			// a non-positional read uses and moves the descriptor's offset: shared mutable state, a switch point,
+			// and a conflict if another goroutine touches the same offset without synchronisation
+			fr.it.sched.yield("fs:read " + of.path)
+			fr.it.raceAccess(fdOffsetKey{of}, true, false)
 			r := e.readAt(of, b, int64(of.pos)).(Tuple)
 			n := int(r[0].(uint64))
 			of.pos += n
@@ -175,6 +179,8 @@ func init() {
 		"(*os.File).Seek": func(fr *Frame, a []Value) Value {
 			e := fr.it.env
 			of := e.fileOf(a[0])
+			fr.it.sched.yield("fs:seek " + of.path)
+			fr.it.raceAccess(fdOffsetKey{of}, true, false)
 			off := int(fr.it.concInt(a[1], "Seek offset"))
 			switch int(a[2].(uint64)) {
 			case 0:
@@ -823,3 +829,6 @@ func extWalk(fr *Frame, a []Value) Value {
 }
 
 var _ = ssa.NaiveForm
+
+// fdOffsetKey identifies the file offset of one open file description for the happens-before check.
+type fdOffsetKey struct{ of *openFile }
